@@ -3,7 +3,7 @@ from .. import AnalysisBroken
 from ..cond import compare_trees
 from ..constfold import NotConstant, module_const, unroll
 from ..eff import Effects
-from ..rules import Equiv, canon_binders, canon_params, check_equiv, close_loops, guards_imply, lift_ite, rewrite, std_rewrites, where_of
+from ..rules import Equiv, canon_folds, fold_module_consts, small_rewrites, canon_binders, canon_params, check_equiv, close_loops, guards_imply, lift_ite, rewrite, std_rewrites, where_of
 from ..ssa import leaves
 from ..terms import FALSE, NONE, TRUE, const, head, is_const, show, strip, strip_all, subst, walk
 
@@ -99,8 +99,8 @@ def check_total(r, q, param_index=0):
     for e in s.events_of("load_sub"):
         if strip(e["obj"]) == p:
             ops.append(("subscript", e, f"{p[1]}[{show(e['index'], 10)}]"))
-    # iteration / membership inside comprehensions: from the return term
-    for x in walk(s.ret):
+    # iteration / membership inside comprehensions (search loops are canonicalised to any / all first): from the return term
+    for x in walk(canon_ret(s)):
         if head(x) == "citer" and strip(x[3]) == p:
             ops.append(("iterate", None, f"for c in {p[1]}"))
         if head(x) == "cmp" and x[1] in ("in", "notin") and any(head(y) == "citer" and strip(y[3]) == p for y in walk(x[2])):
@@ -139,6 +139,13 @@ def check_total(r, q, param_index=0):
     return n
 
 
+def canon_ret(s):
+    t = close_loops(s, s.ret)
+    for _ in range(2):
+        t = rewrite(rewrite(t, canon_folds), small_rewrites)
+    return t
+
+
 def _is_boolish(t):
     t = strip(t)
     h = head(t)
@@ -160,6 +167,16 @@ def _is_boolish(t):
     return False
 
 
+def simplify_idx(e):
+    from ..nnabs import simplify
+    return simplify(strip_all(e["index"]))
+
+
+def _is_local_dict(o):
+    o = strip(o)
+    return head(o) == "dict" or (head(o) == "call" and strip(o[1]) == ("glob", "builtins.dict"))
+
+
 def run(r):
     rep = r.rep
     rep.explanation = "Predicates, the standardiser stores (unrolled over their literal column loops), argument errors, merge forms and write sets were analysed and compared with the specification."
@@ -170,12 +187,13 @@ def run(r):
     rep.require(n >= 4, f"C18-EX: {n} partial operations analysed, floor is 4")
     for name in ("isvalidaa", "isvalidcdr3"):
         s = r.A.summary(Q + name)
-        rep.ob("C18-EX", Q + name, _is_boolish(s.ret), "every return path yields a bool", where_of(r.P, s.func, s.func.node), expected="bool-valued expression on every path", found=show(s.ret, 100), key="bool result")
-        hl = [hd for x in walk(s.ret) if head(x) == "try" for _, hd in x[2]]
+        cr = canon_ret(s)
+        rep.ob("C18-EX", Q + name, _is_boolish(cr), "every return path yields a bool", where_of(r.P, s.func, s.func.node), expected="bool-valued expression on every path", found=show(cr, 100), key="bool result")
+        hl = [hd for x in walk(cr) if head(x) == "try" for _, hd in x[2]]
         rep.ob("C18-PRED", Q + name, all(strip(hd) == FALSE for hd in hl), "objects that are not valid strings give False", where_of(r.P, s.func, s.func.node), expected="handler returns False", found=", ".join(show(h, 20) for h in hl) or "no handler", key="handler false")
     # isvalidaa == all(c in S for c in string), S == the 20 letters
     s = r.A.summary(Q + "isvalidaa")
-    body = strip(s.ret)
+    body = strip(canon_ret(s))
     body = strip(body[1]) if head(body) == "try" else body
     p = ("param", s.params[0][0])
     ok = False
@@ -195,7 +213,7 @@ def run(r):
            expected="all(c in set('ACDEFGHIKLMNPQRSTVWY') for c in s)", found=found, key="aa predicate")
     # isvalidcdr3 on non-empty strings
     s = r.A.summary(Q + "isvalidcdr3")
-    body = strip(s.ret)
+    body = strip(rewrite(canon_ret(s), fold_module_consts(r.P)))
     body = strip(body[1]) if head(body) == "try" else body
     sp = r.A.summarize_source(SPEC, "cdr3pred", "pyrepseq.io").ret
     pcan = canon_params(s)
@@ -230,6 +248,8 @@ def run(r):
         out = {}
         tables = set()
         for e in summ.events_of("setitem"):
+            if table_of is not None and not table_of(strip_all(e["obj"])):
+                continue        # stores into local lookup tables are not stores into the frame
             for asg, (idx, val, obj) in unroll(summ, e, [e["index"], e["value"], e["obj"]]):
                 from ..nnabs import simplify
                 idx, val = simplify(strip_all(idx)), simplify(strip_all(val))
@@ -237,8 +257,14 @@ def run(r):
                 key = idx[2] if is_const(idx) else show(idx, 40)
                 out.setdefault(key, []).append((subst(val, pc), subst(strip_all(obj), pc), e))
         return out, tables
-    code_st, code_tables = stores(s, pcan)
+    res_tables = {strip_all(leaf) for g, leaf in leaves(lift_ite(strip_all(s.ret))) if head(strip(leaf)) != "raise"}
+    code_st, code_tables = stores(s, pcan, table_of=lambda o: o in res_tables or not _is_local_dict(o))
     spec_st, _ = stores(spec, spcan)
+    symbolic = sorted(k for k in code_st if k not in STD_COLS and not all(is_const(simplify_idx(e)) for _, _, e in code_st[k]))
+    if symbolic:
+        rep.require(False, f"C18-COLS: {q}: store into the frame with a column key that does not fold to a constant ({symbolic[0]}); cannot decide")
+        for k in symbolic:
+            code_st.pop(k)
     rep.ob("C18-COLS", q, set(code_st) == STD_COLS, "exactly the nine standard columns are rewritten", where_of(r.P, s.func, s.func.node), expected=str(sorted(STD_COLS)), found=str(sorted(code_st)), key="column set")
     rws = std_rewrites() + [canon_binders]
     TABLE = ("unbound", "TABLE")
@@ -276,8 +302,8 @@ def run(r):
 
     # ------------------------------------------------------------------ multimerge
     msp = r.A.summarize_source(SPEC, "multimerge", "pyrepseq.io")
-    code = close_loops(ms, subst(ms.ret, canon_params(ms)))
-    spc = close_loops(msp, subst(msp.ret, canon_params(msp)))
+    code = subst(close_loops(ms, ms.ret), canon_params(ms))
+    spc = subst(close_loops(msp, msp.ret), canon_params(msp))
     eq = Equiv(rewrites=std_rewrites() + [canon_binders], modelled={"functools.reduce", "pandas.merge", "builtins.zip", "builtins.dict"})
     check_equiv(rep, "C18-MM", mq, "multimerge folds pd.merge over the tables: on the index or the named column, how='outer' overridable by kwargs, '_' + suffix per table", code, spc,
                 where_of(r.P, ms.func, ms.func.node), eq=eq, key="merge forms")
